@@ -347,6 +347,9 @@ BUILTINS = {"len": b_len, "int": b_int, "str": b_str, "list": b_list, "map": b_m
 def method(ex, e, st):
     f = e.func
     attr = f.attr
+    if isinstance(f.value, ast.Name) and f.value.id == "random" and "random" not in st.env:
+        from pyvc import library
+        return library.random_method(ex, e, st, attr)
     if attr == "join":
         sep = ex.ev(f.value, st)
         if getattr(sep, "const", None) != "":
